@@ -50,6 +50,7 @@ def reduce_case(draw):
     }
     if case["scan"]["kind"] == "none":
         case["scan"] = {"kind": "custom", "positions": [[0.0, 0.0]]}
+    case["gpts"] = pl.sound_gpts(case["gpts"], pot)
     return case
 
 
